@@ -167,6 +167,10 @@ def run_case(ctx, case):
     ini_eff = ini if explicit else mean
     ctx.api("armodel_sim")
     params = phi if (p > 1 or case.get("scalar") is False) else float(phi[0])
+    if p > 1 and n % 3 == 1:
+        params = phi.tolist()                 # plain list of coefficients
+    elif p > 1 and n % 3 == 2:
+        params = np.asfortranarray(np.column_stack([phi, phi]))[:, 0]   # strided
     y = call(ar.armodel_sim, params, e.copy(), **kw)
     try:
         yref, yb = ref_sim(phi.tolist(), e.tolist(), mean, ini_eff)
